@@ -382,6 +382,64 @@ func portScenario(paths []string, behaviours []string, bound int) e1.Scenario {
 	return e1.Scenario{Name: fmt.Sprintf("fixed-port/%v/%v", paths, behaviours), Bound: bound, Body: body, Check: check}
 }
 
+// foreignPortScenario: another program's socket holds the client's fixed bind port when the call
+// starts and lets go of it part-way through the timeout (or never). Whatever the library makes of
+// that - an error at once, or waiting for the port - the call is back within one timeout of being
+// made, and leaves nothing open.
+func foreignPortScenario(path, behaviour string, releaseAt time.Duration) e1.Scenario {
+	var start, end int64
+	var err error
+	var done bool
+	body := func() {
+		done, err = false, nil
+		w := newWorld()
+		vs.Net().Env = w.f
+		w.set(step{path: path, behaviour: behaviour})
+		var releases []func()
+		for _, proto := range []string{"udp", "tcp"} {
+			if rel, e := vs.Net().HoldPort(proto, 60001); e == nil {
+				releases = append(releases, rel)
+			} else {
+				panic("harness could not occupy the bind port: " + e.Error())
+			}
+		}
+		if releaseAt >= 0 {
+			vs.After(releaseAt, func() {
+				for _, rel := range releases {
+					rel()
+				}
+			})
+		}
+		u := mkClient(60001)
+		start = vs.NowNs()
+		err = invoke(u, step{path: path, op: "GetCards"})
+		end = vs.NowNs()
+		done = true
+		for _, rel := range releases {
+			rel()
+		}
+	}
+	check := func(e *vs.Exec) (string, []e1.Viol) {
+		viols := e1.Generic(e)
+		if e.Abort != "" {
+			return e.Abort, viols
+		}
+		what := fmt.Sprintf("%s call with the fixed bind port held by a foreign socket until %v (controller: %s)", path, releaseAt, behaviour)
+		if !done {
+			viols = append(viols, e1.Viol{Key: "foreign-bind-port/call-never-returned", What: what})
+			return "foreign: never", viols
+		}
+		if d := time.Duration(end - start); d > T {
+			viols = append(viols, e1.Viol{Key: "foreign-bind-port/" + path + "/returned-after-timeout", What: fmt.Sprintf("%s: returned after %v (err=%v), the timeout is %v", what, d, err, T)})
+		}
+		if open := vs.Net().OpenSockets(); len(open) > 0 {
+			viols = append(viols, e1.Viol{Key: "foreign-bind-port/socket-leak", What: what + ": " + fmt.Sprint(open)})
+		}
+		return fmt.Sprintf("foreign %s:%v@%v", path, err == nil, time.Duration(end-start)), viols
+	}
+	return e1.Scenario{Name: fmt.Sprintf("foreign-bind-port/%s/%s/release@%v", path, behaviour, releaseAt), Bound: 1, Body: body, Check: check}
+}
+
 // budget is the wall-clock allowance of one worker process: generous multiples of the measured
 // run time; running out of it yields exhaustive:false, never a violation.
 func budget(r *vk.Run) time.Duration {
@@ -449,6 +507,14 @@ func main() {
 			scenarios = append(scenarios, portScenario(perm, b, bound))
 		}
 	}
+	// the fixed bind port held by a foreign socket and released part-way through the call
+	for _, p := range []string{"udp", "tcp", "broadcast"} {
+		for _, beh := range []string{sil[p], "success"} {
+			for _, at := range []time.Duration{-1, T / 20, T / 4, T / 2, 9 * T / 10} {
+				scenarios = append(scenarios, foreignPortScenario(p, beh, at))
+			}
+		}
+	}
 	for i := range scenarios {
 		scenarios[i] = withTimeout(scenarios[i], time.Second)
 	}
@@ -468,7 +534,7 @@ func main() {
 	if r.Worker == "" && r.Replay == "" {
 		e1.Conformance(r)
 	}
-	r.Rule(fmt.Sprintf("histories: every sequence of length <= %d (fixed bind port: <= %d) over %d steps (path x network behaviour incl. silence, late and just-in-time replies, stray flood, TCP stall/refused/reset/EOF/blackhole/connection established late, ICMP unreachable, SetAddress, discovery), step by step as environment choices; histories of length <= 2 again with client timeouts of 300 ms, 1.5 s, 2.5 s and 90 s; fixed-port scenarios with 2 and 3 concurrent callers (silent holders first; TCP refused / reset / EOF / blackholed next to calls that must be served) over all interleavings within the preemption bound. distinct = distinct history/outcome labels", maxLen, maxFixed, len(alphabet)))
+	r.Rule(fmt.Sprintf("histories: every sequence of length <= %d (fixed bind port: <= %d) over %d steps (path x network behaviour incl. silence, late and just-in-time replies, stray flood, TCP stall/refused/reset/EOF/blackhole/connection established late, ICMP unreachable, SetAddress, discovery), step by step as environment choices; histories of length <= 2 again with client timeouts of 300 ms, 1.5 s, 2.5 s and 90 s; fixed-port scenarios with 2 and 3 concurrent callers (silent holders first; TCP refused / reset / EOF / blackholed next to calls that must be served) over all interleavings within the preemption bound; the fixed bind port held by a foreign socket that lets go of it at 0.05 / 0.25 / 0.5 / 0.9 T or never (3 paths x 2 controller behaviours). distinct = distinct history/outcome labels", maxLen, maxFixed, len(alphabet)))
 	r.Assume("virtual time: computation takes no time, so 'within the timeout' is decided with zero scheduling slack")
 	r.Assume("network behaviours are those of mc/shim/vs/net.go (refused connect fails immediately, blackholed connect blocks until the dial deadline, ICMP unreachable surfaces as a read error)")
 	r.Finish()
